@@ -491,6 +491,9 @@ def synth_multi_topology(seed: int, pairs=((0, 1), (0, 2)), half_integer: bool =
         s_init, s_fin = Fraction(1, 2), [Fraction(1, 2), Fraction(0), Fraction(0)]
     else:
         s_init, s_fin = Fraction(int(rng.integers(0, 2))), [Fraction(1), Fraction(0), Fraction(0)]
+        # the spinful particle is not always the first one: a spinful *spectator* with a larger id than the isobar's daughters
+        pattern = [[1, 0, 0], [0, 1, 0], [0, 0, 1], [1, 1, 0], [1, 0, 1]][seed % 5]
+        s_fin = [Fraction(v) for v in pattern]
     if half_integer and rng.uniform() < 0.5:
         s_fin[1] = Fraction(1, 2)
         s_init = Fraction(1)
